@@ -94,7 +94,11 @@ MCDec(t) == LET r  == ImplDec(t)
             IN  DecCall(t, IF wf THEN EntOf(t) ELSE <<>>, IF wf THEN csf[EntOf(t)] ELSE <<>>,
                         r, [ok |-> r.ok, s |-> r.d])
 
-Single  == Idle /\ \E t \in TokSeqs : MCDec(t)
+MCSfp(t) == LET r  == ImplDec(t)
+                wf == WellFormed(t)
+            IN  SfpCall(t, IF wf THEN EntOf(t) ELSE <<>>, IF wf THEN csf[EntOf(t)] ELSE <<>>,
+                        [ok |-> r.ok, s |-> r.d])
+Single  == Idle /\ \E t \in TokSeqs : MCDec(t) \/ MCSfp(t)
 Start   == Idle /\ \E e \in Ent : MCEnc(e)
 StepVar == /\ InScen /\ call.op \in {"Enc", "Dec"} /\ WellFormed(Base) /\ Todo # {}
            /\ MCDec(CHOOSE u \in Todo : \A x \in Todo : u[NW] <= x[NW])
